@@ -13,10 +13,12 @@
     best-only – skips notifications with `best_changed = false` (a non-add-path neighbour);
     add-path  – skips notifications with `any_changed = false` (an add-path neighbour; comparing the
                 whole stored list is comparing the top-N for every N).
-  After every step, for every family that is not deferring, each consumer's view must equal what
-  `collect_loc_rib_paths` reports.  A deferral is an episode that starts on a family whose exportable
+  The consumers key what they store by the destination identifier carried in the notification (as
+  `ExportMap` / `PendingTx` do).  After every step, for every family that is not deferring, each
+  consumer's view must equal what `collect_loc_rib_paths` reports (same identifiers, prefixes, paths),
+  and the dump must equal the reference path set folded from the operations (SpecRef).  A deferral is an episode that starts on a family whose exportable
   state is empty (the restarting speaker at start-up); a family whose deferral started otherwise is
-  outside the statement and no longer judged (`assumptions` in checks/c06.py).
+  not judged until the end of that deferral re-announces everything (`assumptions` in checks/c06.py).
 -/
 import Rbgp.Rib.SpecRef
 namespace Rbgp.Rib.SpecC06
